@@ -27,6 +27,7 @@ import FFVerif.Gen.DiffTables
 import FFVerif.Gen.MeanStress
 import FFVerif.Gen.Wave
 import FFVerif.Gen.Wind
+import FFVerif.Gen.VecFormulas
 open FF FF.Proto
 
 def counterByName (n : String) : Option (List Int → List Cyc) :=
@@ -244,6 +245,15 @@ def handle (toks : List String) : Option String :=
       (oracle.splitOn "|").mapM (fun lv => (lv.splitOn ";").mapM parseList))
     let r := Subset.pf a b N (Subset.run nc ms (ms + 1) g0 orc)
     some s!"{r.1} {r.2}"
+  | "c12gen" :: args => do
+    -- the regenerated closing formulas at Float: beta, Phi(-beta), phi(beta), Phi(beta), then the curvatures
+    let a ← parseFloats args
+    if a.size < 4 then none else
+    let beta := a[0]!
+    let cdf : Float → Float := fun x => if x == beta then a[3]! else a[1]!
+    let pdf : Float → Float := fun _ => a[2]!
+    let ks := (a.toList.drop 4)
+    some s!"{(Gen.breitungPf cdf pdf beta ks).toBits.toNat} {(Gen.tvedtPf cdf pdf beta ks).toBits.toNat} {(Gen.hrackPf cdf pdf beta ks).toBits.toNat}"
   | "c12" :: args => do
     let a ← parseFloats args
     if a.size < 4 then none else
